@@ -49,6 +49,8 @@ BpCalls ==
     \cup {[C0 EXCEPT !.op = o, !.p = p, !.q = q] : o \in {"rename", "link"}, p \in {AbsP(<<"f">>), RelP(<<"f">>), AbsP(<<"a">>)},
                                                     q \in BpPaths}
     \cup {[C0 EXCEPT !.op = "getwd"]}
+    \cup {[C0 EXCEPT !.op = "glob", !.p = p] : p \in {AbsP(<<"*">>), AbsP(<<"a", "*">>), AbsP(<<"..", "*">>), AbsP(<<"?">>), RelP(<<"*">>)}}
+    \cup {[C0 EXCEPT !.op = "walk", !.p = p, !.n = k, !.flag = <<"SkipDir">>] : p \in {AbsP(<<>>), AbsP(<<"a">>), AbsP(<<"f">>)}, k \in {0, 2}}
 
 BuildCalls ==
     {[C0 EXCEPT !.op = "mkdir", !.p = p, !.perm = 493] : p \in Paths}
@@ -69,6 +71,7 @@ HandleCalls(s) ==
             [C0 EXCEPT !.op = "freaddirnames", !.h = h, !.n = -1], [C0 EXCEPT !.op = "close", !.h = h]}
            : h \in DOMAIN s.h}
 
+P1x == {AbsP(x) : x \in P1}
 WrapCalls(s) ==
     {[C0 EXCEPT !.op = "mkdir", !.p = p, !.perm = 493] : p \in Paths}
     \cup {[C0 EXCEPT !.op = "mkdirall", !.p = p, !.perm = 493] : p \in Paths}
@@ -86,6 +89,11 @@ WrapCalls(s) ==
     \cup {[C0 EXCEPT !.op = "chtimes", !.p = p, !.n = 7] : p \in Paths}
     \cup {[C0 EXCEPT !.op = o, !.p = p, !.uid = 1001, !.gid = 1001] : o \in {"chown", "lchown"}, p \in Paths}
     \cup {[C0 EXCEPT !.op = o, !.p = p, !.q = RelP(<<"a">>), !.data = <<3>>] : o \in {"subwrite", "submkdir"}, p \in Paths \cup {WorkP}}
+    \* enumeration through the wrapper (C14); FailFS's Glob is a composite whose consultations are not specified
+    \cup {[C0 EXCEPT !.op = "walk", !.p = p, !.n = k, !.flag = <<a>>] : p \in {WorkP}, k \in {0, 2}, a \in {"SkipDir", "SkipAll"}}
+    \cup (IF Kind = "failfs" THEN {} ELSE {[C0 EXCEPT !.op = "glob", !.p = AbsP(<<"w", g1>>)] : g1 \in {"*", "a*", "?"}}
+                                             \cup {[C0 EXCEPT !.op = "glob", !.p = AbsP(<<"w", "*", "*">>)]})
+    \cup {[C0 EXCEPT !.op = o, !.p = p] : o \in {"exists", "isdir", "isempty"}, p \in P1x}
     \cup HandleCalls(s)
 
 Impl == IF "VERIF_IMPL" \in DOMAIN IOEnv THEN IOEnv.VERIF_IMPL ELSE "memfs"
